@@ -294,26 +294,30 @@ Proof.
 Qed.
 
 Theorem parse_description_spec s ts :
-  parse_description s = Ok ts <-> (s <> [] /\ sig_of_types s ts).
+  parse_description s = Ok ts <-> sig_of_types s ts.
 Proof.
   unfold parse_description, sig_of_types. destruct (N.ltb_spec 255 (len s)) as [Hl|Hl].
-  { split; [discriminate|]. intros (_ & H & _). lia. }
-  destruct s as [|c s']; [split; [discriminate|intros [H _]; now elim H]|].
-  set (s := c :: s') in *. split.
+  { split; [discriminate|]. intros (H & _). lia. }
+  split.
   - intros H. destruct (top_loop (S (length s)) s []) as [ts0| | | |] eqn:E; cbn [bind] in H; try discriminate.
     destruct (forallb (check_depth 0 0) ts0) eqn:Ed; [|discriminate]. injection H as <-.
     apply top_loop_sound in E. destruct E as (new & E1 & E2 & E3). cbn [app] in E1. subst ts0.
-    split; [discriminate|]. split; [exact Hl|]. split; [exact E3|]. split; [|exact E2].
+    split; [exact Hl|]. split; [exact E3|]. split; [|exact E2].
     now rewrite <- forallb_check_depth.
-  - intros (_ & _ & Hwf & Hd & Es). rewrite Es at 2. rewrite top_loop_complete; [|exact Hwf|].
+  - intros (_ & Hwf & Hd & Es). rewrite Es at 2. rewrite top_loop_complete; [|exact Hwf|].
     + cbn [bind app]. rewrite forallb_check_depth by exact Hwf. now rewrite Hd.
     + rewrite Es. pose proof (length_flat_ge ts). lia.
 Qed.
 
+(* the empty string is the signature of no types at all *)
+Lemma parse_description_nil : parse_description [] = Ok [].
+Proof. reflexivity. Qed.
+Lemma valid_sig_nil : ValidSig [].
+Proof. exists []. apply parse_description_spec. exact parse_description_nil. Qed.
+
 Theorem parse_description_total s : ok_or_err (parse_description s).
 Proof.
   unfold parse_description. destruct (255 <? len s); [exact I|].
-  destruct s as [|c s']; [exact I|]. set (s := c :: s').
   pose proof (top_loop_total (S (length s)) s [] ltac:(lia)) as Hn.
   destruct (top_loop (S (length s)) s []) as [ts| | | |] eqn:E; cbn [bind]; try exact Hn.
   destruct (forallb (check_depth 0 0) ts); exact I.
